@@ -1,13 +1,15 @@
 ----------------------------- MODULE MC_Screen -----------------------------
 (* Exhaustive check of FzfScreen on small constants: every geometry x configuration of the constant sets, and    *)
 (* from an initial state every sequence of abstract editor steps (type / erase, cursor moves that scroll,        *)
-(* selection toggles, a new result list, a resize).  Render is a function, so the state machine is only the      *)
-(* enumerator; the invariants say that the rendering satisfies the documented claims.                             *)
-EXTENDS FzfScreen, Json
+(* selection toggles, a new result list, a resize, showing / hiding the header and input sections, a new search   *)
+(* pattern).  Render is a function, so the state machine is only the enumerator; the invariants say that the      *)
+(* rendering satisfies the documented claims.                                                                     *)
+EXTENDS FzfScreen, Json, IOUtils
 
 CONSTANTS Widths, Heights, Layouts, Infos, Seps, Headers, Hlines, HeaderFirsts, Inputless, Pointers, Markers,
           Ellipses, Lists, Multis, Queries, MaxCount, Tracks,
-          Acts          \* enabled steps: subset of {"edit", "move", "toggle", "list", "resize"}
+          Hscrolls, HscrollOffs, KeepRights, Scrollbars, Borders, Patterns,
+          Acts          \* enabled steps: subset of {"edit", "move", "toggle", "list", "resize", "vis", "pattern"}
 
 VARIABLES g, c, s
 vars == <<g, c, s>>
@@ -16,18 +18,19 @@ TextOf(id) == CASE id = 0 -> <<"a", "b">>
                 [] id = 1 -> <<"l", "o", "n", "g", " ", "l", "i", "n", "e", " ", "x", "y", "z", "w">>     \* 14 cells
                 [] id = 2 -> <<"W", "i", "W", "x">>                                                 \* "W" is wide in MC
                 [] id = 3 -> <<>>
-                [] id = 4 -> <<"e", "x", "a", "c", "t", "l", "y", "9", "!">>                          \* 9 cells
+                [] id = 4 -> <<"e", "x", "^", "a", "c", "t", "l", "y", "9", "!">>                     \* 9 columns ("^" is zero-width in MC)
                 [] OTHER -> <<">", " ", "t">>
 Wide == {"W"}
 Zero == {"^"}
 Geoms == [w : Widths, h : Heights, wide : {Wide}, zero : {Zero}]
 Cfgs == [layout : Layouts, info : Infos, sep : Seps, header : Headers, hlines : Hlines, headerFirst : HeaderFirsts,
-         inputless : Inputless, prompt : {<<">", " ">>}, pointer : Pointers, marker : Markers, ellipsis : Ellipses]
+         inputless : Inputless, prompt : {<<">", " ">>}, pointer : Pointers, marker : Markers, ellipsis : Ellipses,
+         hscroll : Hscrolls, hscrollOff : HscrollOffs, keepRight : KeepRights, scrollbar : Scrollbars, border : Borders]
 TextsOf(l) == [i \in 1..Len(l) |-> TextOf(l[i])]
 
 (* printList -> constrain: the current line is kept inside the displayed window *)
 View(st, gg, cc) ==
-    LET mi == MaxItems(gg, cc)
+    LET mi == MaxItems(Inner(gg, cc), Eff(st, cc))
         n == Len(st.list)
         cy == Constrain(st.cy, 0, n - 1)
         cy0 == IF n = 0 THEN 0 ELSE cy
@@ -40,12 +43,15 @@ View(st, gg, cc) ==
 Init == /\ g \in Geoms /\ c \in Cfgs
         /\ \E l \in Lists, m \in Multis, tr \in Tracks :
              s = [input |-> <<>>, cx |-> 0, xoffset |-> 0, list |-> l, texts |-> TextsOf(l), sel |-> <<>>, multi |-> m, cy |-> 0,
-                  offset |-> 0, count |-> MaxCount, track |-> tr]
+                  offset |-> 0, count |-> MaxCount, track |-> tr, showHeader |-> TRUE, hideInput |-> c.inputless,
+                  pattern |-> <<>>]
+gi == Inner(g, c)                  \* the finder's area
+ce == Eff(s, c)                    \* the configuration in effect
 
 (* a new query with the cursor somewhere in it; the prompt is redrawn (updatePromptOffset) *)
 Edit == \E q \in Queries : \E x \in {0, Len(q) \div 2, Len(q)} :
            LET s1 == [s EXCEPT !.input = q, !.cx = x] IN
-           s' = [s1 EXCEPT !.xoffset = PromptOffset(s1, g, c)] /\ UNCHANGED <<g, c>>
+           s' = [s1 EXCEPT !.xoffset = PromptOffset(s1, gi, ce)] /\ UNCHANGED <<g, c>>
 Move == \E d \in {-1, 1} : s' = View([s EXCEPT !.cy = s.cy + d], g, c) /\ UNCHANGED <<g, c>>
 Toggle == /\ s.multi > 0 /\ N(s) > 0
           /\ LET id == s.list[s.cy + 1] IN
@@ -54,47 +60,74 @@ Toggle == /\ s.multi > 0 /\ N(s) > 0
           /\ UNCHANGED <<g, c>>
 NewList == \E l \in Lists : s' = View([s EXCEPT !.list = l, !.texts = TextsOf(l)], g, c) /\ UNCHANGED <<g, c>>
 Resize == \E g2 \in Geoms : g' = g2 /\ UNCHANGED c
-                              /\ LET s1 == View(s, g2, c) IN s' = [s1 EXCEPT !.xoffset = PromptOffset(s1, g2, c)]
+                              /\ LET s1 == View(s, g2, c) IN s' = [s1 EXCEPT !.xoffset = PromptOffset(s1, Inner(g2, c), ce)]
+(* toggle-header / show-header / hide-header / toggle-input / show-input / hide-input: the list is laid out again *)
+Vis == \E a \in VisActs : s' = View(VisStep(s, a), g, c) /\ UNCHANGED <<g, c>>
+(* the result list now belongs to another pattern (the lines all match in this abstraction) *)
+SetPattern == \E p \in Patterns : s' = [s EXCEPT !.pattern = p] /\ UNCHANGED <<g, c>>
 AEdit == "edit" \in Acts /\ Edit
 AMove == "move" \in Acts /\ Move
 AToggle == "toggle" \in Acts /\ Toggle
 ANewList == "list" \in Acts /\ NewList
 AResize == "resize" \in Acts /\ Resize
-Next == AEdit \/ AMove \/ AToggle \/ ANewList \/ AResize
+AVis == "vis" \in Acts /\ Vis
+APattern == "pattern" \in Acts /\ SetPattern
+Next == AEdit \/ AMove \/ AToggle \/ ANewList \/ AResize \/ AVis \/ APattern
 
 -----------------------------------------------------------------------------
-R == Render(s, g, c)
-Exact == InlineInfo(c) => InfoFits(QShown(s, g, c), s, g, c)
+R == Render(s, g, c)                                   \* the screen
+A == RenderArea(s, gi, ce)                             \* the finder's area (= R without a border)
+Exact == InlineInfo(ce) => InfoFits(QShown(s, gi, ce), s, gi, ce)
 Scrolled == s.xoffset > 0
 
-InvPlace == PlaceOK(g, c)
-InvRowCount == Len(R) = g.h
-InvWidth == Exact /\ InfoFits(QShown(s, g, c), s, g, c) => \A r \in 1..g.h : TW(R[r], g) <= g.w
+InvPlace == PlaceOK(gi, ce)
+InvRowCount == Len(R) = g.h /\ Len(A) = gi.h
+InvWidth == Exact /\ InfoFits(QShown(s, gi, ce), s, gi, ce) => \A r \in 1..g.h : TW(R[r], g) <= g.w
 (* the code-derived rendering satisfies the documented claims *)
 InvClaims == Exact => Claims(R, s, g, c)
+(* the border is a frame around the area and nothing else *)
+InvFrame == c.border => ClaimFrame(R, g) /\ Unframe(R, g) = A
+(* a hidden section has no row; the list gets the rows *)
+InvHidden == /\ (~s.showHeader => RowsOf("header", gi, ce) \cup RowsOf("hline", gi, ce) = {})
+             /\ (s.hideInput => RowsOf("prompt", gi, ce) \cup RowsOf("info", gi, ce) = {})
+             /\ (~s.showHeader /\ s.hideInput => RowsOf("item", gi, ce) = 1..gi.h)
+(* showing / hiding is idempotent, toggling twice changes nothing, and the layout depends on the flags only *)
+InvVisAlgebra == /\ \A a \in {"toggle-header", "toggle-input"} : VisStep(VisStep(s, a), a) = s
+                 /\ \A a \in VisActs \ {"toggle-header", "toggle-input"} : VisStep(VisStep(s, a), a) = VisStep(s, a)
+                 /\ VisStep(VisStep(s, "hide-header"), "toggle-header") = VisStep(s, "show-header")
+                 /\ VisStep(VisStep(s, "hide-input"), "toggle-input") = VisStep(s, "show-input")
+(* the text of a list row never reaches the reserved column, whatever part of the line is displayed *)
+InvTextRoom == \A r \in RowsOf("item", gi, ce) :
+                  LET k == SlotAt(r - 1, gi, ce).ix IN
+                  s.offset + k < N(s) =>
+                     TW(Window(s.texts[s.offset + k + 1], MatchEnd(s.texts[s.offset + k + 1], s.pattern), s.pattern = <<>>,
+                               TextRoom(gi, ce), ce, g), g) <= Max2(TextRoom(gi, ce), 0)
 
-ItemRows == RowsOf("item", g, c)
-PointerRows == {r \in ItemRows : IsPrefix(c.pointer, R[r])}
-MarkerRows == {r \in ItemRows : Sub(R[r] \o Spaces(Indent(c, g)), Len(c.pointer) + 1, Len(c.pointer) + Len(c.marker)) = c.marker}
-VisibleIx(r) == s.offset + SlotAt(r - 1, g, c).ix + 1
-InvOnePointer == Cardinality(PointerRows) = (IF N(s) > 0 /\ MaxItems(g, c) > 0 THEN 1 ELSE 0)
+ItemRows == RowsOf("item", gi, ce)
+PointerRows == {r \in ItemRows : IsPrefix(c.pointer, A[r])}
+MarkerRows == {r \in ItemRows : Sub(A[r] \o Spaces(Indent(c, g)), Len(c.pointer) + 1, Len(c.pointer) + Len(c.marker)) = c.marker}
+VisibleIx(r) == s.offset + SlotAt(r - 1, gi, ce).ix + 1
+InvOnePointer == Cardinality(PointerRows) = (IF N(s) > 0 /\ MaxItems(gi, ce) > 0 THEN 1 ELSE 0)
 InvPointerOnCurrent == \A r \in PointerRows : VisibleIx(r) = s.cy + 1
 InvMarkers == MarkerRows = {r \in ItemRows : VisibleIx(r) <= N(s) /\ Selected(s.list[VisibleIx(r)], s)}
 InvHeaderOutsideList ==
-    \A r \in RowsOf("header", g, c) \cup RowsOf("hline", g, c) :
+    \A r \in RowsOf("header", gi, ce) \cup RowsOf("hline", gi, ce) :
         /\ r \notin ItemRows
         /\ \A r1, r2 \in ItemRows : ~(r1 < r /\ r < r2)
-(* every visible result is on exactly one row, in list order along the layout's direction *)
+(* every visible result is on exactly one row, in list order along the layout's direction (lines cut on the right) *)
 InvRowsAreResults ==
     \A r \in ItemRows : VisibleIx(r) <= N(s) =>
-        /\ IsPrefix(RTrim(Sub(s.texts[VisibleIx(r)], 1, 1)), RTrim(Sub(R[r] \o Spaces(Indent(c, g) + 1), Indent(c, g) + 1, Indent(c, g) + 1)))
+        /\ IsPrefix(RTrim(Sub(s.texts[VisibleIx(r)], 1, 1)), RTrim(Sub(A[r] \o Spaces(Indent(c, g) + 1), Indent(c, g) + 1, Indent(c, g) + 1)))
 (* the recursive cut equals its declarative definition *)
-InvTakeW == (s.sel = <<>> /\ s.cy = 0) => \A id \in 0..5 : \A lim \in -1..(Len(TextOf(id)) + 2) : TakeW(TextOf(id), lim, g) = TakeWDecl(TextOf(id), lim, g)
+InvTakeW == (s.sel = <<>> /\ s.cy = 0) => \A id \in 0..5 : \A lim \in -1..(Len(TextOf(id)) + 2) :
+                /\ TakeW(TextOf(id), lim, g) = TakeWDecl(TextOf(id), lim, g)
+                /\ TakeRightW(TextOf(id), lim, g) = TakeRightWMirror(TextOf(id), lim, g)
+                /\ TW(TextOf(id), g) = TWRec(TextOf(id), g) /\ TW(<<"^", "W", "a", "^">>, g) = 3
 (* the cursor stays on the prompt line: what is shown before it fits, the offset never passes it *)
 InvCursorVisible == /\ 0 <= s.xoffset /\ s.xoffset <= s.cx
-                    /\ QBefore(s, g, c) = Sub(s.input, s.xoffset + 1, s.cx)
-                    /\ TW(QShown(s, g, c), g) <= PromptRoom(g, c)
-InvRTrim == \A r \in 1..g.h : R[r] = <<>> \/ R[r][Len(R[r])] # " "
+                    /\ QBefore(s, gi, ce) = Sub(s.input, s.xoffset + 1, s.cx)
+                    /\ TW(QShown(s, gi, ce), g) <= PromptRoom(gi, ce)
+InvRTrim == \A r \in 1..gi.h : A[r] = <<>> \/ A[r][Len(A[r])] # " "
 
 
 -----------------------------------------------------------------------------
@@ -111,16 +144,75 @@ GenCombos == {  \* <<query, cy, selected list positions, multi>>
     <<<<"l", "o">>, 4, {5, 3}, 2>> }
 RECURSIVE SortedSeq(_)
 SortedSeq(S) == IF S = {} THEN <<>> ELSE LET m == CHOOSE x \in S : \A y \in S : x <= y IN <<m>> \o SortedSeq(S \ {m})
-GenInit == /\ g \in Geoms /\ c \in GenCfgs
-           /\ \E l \in Lists, k \in GenCombos :
-                LET vis == Min2(Len(l), MaxItems(g, c))
+(* The enumeration runs in two levels so that TLC's workers share it: the initial states are the (geometry,       *)
+(* configuration) pairs with a placeholder state (Seed), the successors of a placeholder are the cases.  A quick run *)
+(* exports one slice of the configurations, chosen by the seed of the run (environment VERIF_SLICES / VERIF_SLICE;   *)
+(* unset = everything).                                                                                               *)
+Seed == [input |-> <<>>, cx |-> 0, xoffset |-> 0, list |-> <<>>, texts |-> <<>>, sel |-> <<>>, multi |-> 0, cy |-> 0, offset |-> 0,
+         count |-> 0, track |-> 9, showHeader |-> TRUE, hideInput |-> FALSE, pattern |-> <<>>]
+IsSeed == s.track = 9
+Slices == IF "VERIF_SLICES" \in DOMAIN IOEnv THEN atoi(IOEnv.VERIF_SLICES) ELSE 1
+Slice == IF "VERIF_SLICE" \in DOMAIN IOEnv THEN atoi(IOEnv.VERIF_SLICE) ELSE 0
+B(x) == IF x THEN 1 ELSE 0
+CfgCode(cc) == Len(cc.header) + 2 * Len(cc.hlines) + 3 * B(cc.headerFirst) + 5 * B(cc.sep) + 7 * B(cc.inputless)
+               + 11 * (CASE cc.layout = "default" -> 0 [] cc.layout = "reverse" -> 1 [] OTHER -> 2)
+               + 13 * (CASE cc.info = "default" -> 0 [] cc.info = "inline" -> 1 [] cc.info = "hidden" -> 2 [] cc.info = "right" -> 3 [] OTHER -> 4)
+               + 17 * Len(cc.ellipsis) + 19 * cc.hscrollOff + 23 * B(cc.hscroll) + 29 * B(cc.keepRight) + 31 * Len(cc.scrollbar)
+               + 37 * B(cc.border)
+InSlice(cc) == CfgCode(cc) % Slices = Slice % Slices
+
+(* the sections' visibility is part of the exported state: <<showHeader, hideInput>>; the driver reaches it with *)
+(* show-/hide-header and show-/hide-input, whatever the previous case of the same session left behind             *)
+GenVis == {<<TRUE, FALSE>>, <<FALSE, FALSE>>, <<TRUE, TRUE>>, <<FALSE, TRUE>>}
+GenInit == g \in Geoms /\ c \in {cc \in GenCfgs : InSlice(cc)} /\ s = Seed
+GenNextL == /\ IsSeed /\ UNCHANGED <<g, c>>
+            /\ \E l \in Lists, k \in GenCombos, v \in GenVis :
+                LET s0 == [input |-> k[1], cx |-> Len(k[1]), xoffset |-> 0, list |-> l, texts |-> TextsOf(l), sel |-> <<>>, multi |-> k[4],
+                           cy |-> 0, offset |-> 0, count |-> Len(l), track |-> 0, showHeader |-> v[1], hideInput |-> v[2], pattern |-> <<>>]
+                    vis == Min2(Len(l), MaxItems(Inner(g, c), Eff(s0, c)))
                     pos == {p \in k[3] : p <= Len(l)}
-                IN s = [input |-> k[1], cx |-> Len(k[1]), xoffset |-> 0, list |-> l, texts |-> TextsOf(l),
-                        sel |-> [i \in 1..Cardinality(pos) |-> l[SortedSeq(pos)[i]]], multi |-> k[4],
-                        cy |-> IF vis = 0 THEN 0 ELSE Min2(k[2], vis - 1), offset |-> 0, count |-> Len(l), track |-> 0]
-GenNext == UNCHANGED vars
-GenCase == PrintT(<<"CASE", ToJson([w |-> g.w, h |-> g.h, cfg |-> c, st |-> [s EXCEPT !.texts = <<>>],
-                                    items |-> s.texts, rows |-> R])>>)
+                IN s' = [s0 EXCEPT !.sel = [i \in 1..Cardinality(pos) |-> l[SortedSeq(pos)[i]]],
+                                   !.cy = IF vis = 0 THEN 0 ELSE Min2(k[2], vis - 1)]
+GenCase == IsSeed \/ PrintT(<<"CASE", ToJson([w |-> g.w, h |-> g.h, cfg |-> c, st |-> [s EXCEPT !.texts = <<>>],
+                                    items |-> s.texts, maxItems |-> MaxItems(gi, ce), rows |-> R])>>)
+
+(* Export of lines that are too long for the window (Gen_ScreenH*.cfg): the search is enabled (--no-sort, so the   *)
+(* list is the input), every line contains every marker exactly once (upper-case letters: case-sensitive terms,    *)
+(* the rest of a line is lower-case letters, digits and dashes), the query is one of the marker patterns: at the   *)
+(* start, in the middle, at the very END of the line, two terms, none.                                              *)
+FillSeq == <<"a", "b", "c", "d", "e", "f", "g", "h", "i", "j", "-", "0", "1", "2", "3", "4", "5", "6", "7", "8", "9", "-", "k", "l", "m", "n", "o", "p", "q", "r", "s", "t", "u", "v", "w", "x", "y", "z", "_">>
+LongLine(n, tag) ==     \* n cells: <tag> A B ... M N ... Y Z
+    [i \in 1..n |-> IF i = 1 THEN tag
+                    ELSE IF i = 3 THEN "A" ELSE IF i = 4 THEN "B"
+                    ELSE IF i = n \div 2 THEN "M" ELSE IF i = n \div 2 + 1 THEN "N"
+                    ELSE IF i = n - 1 THEN "Y" ELSE IF i = n THEN "Z"
+                    ELSE FillSeq[((i * 7) % Len(FillSeq)) + 1]]
+TextH(id) == CASE id = 0 -> LongLine(61, "0")
+               [] id = 1 -> LongLine(90, "1")
+               [] id = 2 -> <<"2", "-", "A", "B", " ", "M", "N", " ", "s", "h", "o", "r", "t", " ", "Y", "Z">>        \* fits
+               [] id = 3 -> LongLine(137, "3")
+               [] id = 4 -> LongLine(44, "4")
+               [] id = 5 -> LongLine(23, "5")
+               [] OTHER -> LongLine(70, "6")
+TextsH(l) == [i \in 1..Len(l) |-> TextH(l[i])]
+GenPatternsH == {<<>>, <<"A", "B">>, <<"M", "N">>, <<"Y", "Z">>, <<"Z">>, <<"A", "B", " ", "Y", "Z">>, <<"N", " ", "Y">>}
+GenInitH == g \in Geoms /\ c \in {cc \in Cfgs : InSlice(cc)} /\ s = Seed
+GenNextH == /\ IsSeed /\ UNCHANGED <<g, c>>
+            /\ \E l \in Lists, p \in GenPatternsH : \E k \in {0, 1, Len(l) - 1} :
+                 s' = View([input |-> p, cx |-> Len(p), xoffset |-> 0, list |-> l, texts |-> TextsH(l), sel |-> <<>>, multi |-> 0,
+                           cy |-> k, offset |-> 0, count |-> Len(l), track |-> 0, showHeader |-> TRUE, hideInput |-> FALSE,
+                           pattern |-> p], g, c)
+(* every exported line / pattern pair is in the domain where the position of the match is beyond doubt *)
+InvGenHDetermined == IsSeed \/ \A i \in 1..N(s) : Determined(s.texts[i], s.pattern, g) /\ (s.pattern # <<>> => MatchEnd(s.texts[i], s.pattern) > 0)
+MCListsH == {<<0, 1, 2, 3, 4, 5, 6>>}
+MCHeadersH == {<<>>, <<LongLine(75, "H")>>}
+MCScrollbars == {<<>>, <<"|">>}
+MCNoScrollbar == {<<>>}
+MCEllipsesH == {<<".", ".">>, <<"~">>, <<>>}
+MCEllipsesHq == {<<".", ".">>, <<>>}
+MCPatternsNone == {<<>>}
+MCPatternsQ == {<<>>, <<"o">>, <<"w">>, <<"z", "w">>, <<"n", "g">>}
+MCPatterns == {<<>>, <<"o">>, <<"e">>, <<"w">>, <<"z", "w">>, <<"n", "g">>, <<"x", " ", "a">>, <<"!">>}
 MCListsG == {<<1, 0, 5, 3, 4>>}
 MCHeadersG == {<<>>, <<<<"H", "1">>, <<"a", " ", "h", "e", "a", "d", "e", "r", " ", "l", "i", "n", "e", " ", "o", "f", " ", "2", "4", " ", "c", "e", "l", "l", "s">>>>}
 MCHlinesG == {<<>>, <<<<"x", "1">>, <<"x", "2">>>>}
@@ -134,6 +226,7 @@ MCHeaders == {<<>>, <<<<"H", "1">>>>, <<<<"H", "1">>, <<"h", "e", "a", "d", "e",
 MCHeadersQ == {<<>>, <<<<"H", "1">>, <<"h", "e", "a", "d", "e", "r", " ", "t", "w", "o", " ", "!">>>>}
 MCHlines == {<<>>, <<<<"x", "1">>>>, <<<<"x", "1">>, <<"x", "2">>>>}
 MCHlinesQ == {<<>>, <<<<"x", "1">>, <<"x", "2">>>>}
+MCHlinesC0 == {<<>>}
 MCLists == {<<>>, <<0>>, <<1, 0, 2>>, <<0, 1, 2, 3, 4, 5>>}
 MCListsQ == {<<>>, <<1, 0, 5>>, <<0, 1, 2, 3, 4>>}
 MCListsD == {<<>>, <<1, 0, 5>>}
